@@ -55,7 +55,8 @@ PREREQ = {
     "tomo.SMF.density_matrix": ["tomo.stabilizer_measurement_circuit"], "tomo.smf_expectation_values": ["tomo.stabilizer_measurement_circuit"],
     "tomo.FST.new": ["tomo.full_state_tomography_circuits"], "tomo.FST.expectation_values": ["tomo.full_state_tomography_circuits"],
     "tomo.FST.density_matrix": ["tomo.full_state_tomography_circuits"], "tomo.fst_density_matrix": ["tomo.full_state_tomography_circuits"],
-    "lin.NTuple.query": ["lin.NTuple"], "lin.Repr.query": ["lin.Repr"], "lin.Repr.add": ["lin.NTuple", "lin.Repr"],
+    "lin.NTuple.query": ["lin.NTuple"], "lin.Repr": ["lin.NTuple"], "lin.Repr.query": ["lin.NTuple", "lin.Repr"],
+    "lin.Repr.add": ["lin.NTuple", "lin.Repr"],
     "lin.from": ["lin.to"],
     "lc.id": ["lc.determine_lc_class"], "lc.get_graph": ["lc.determine_lc_class"], "lc.str": ["lc.determine_lc_class"],
     "lc.eq": ["lc.determine_lc_class", "lc.new"], "lc.num_qubits": ["lc.new"],
